@@ -26,6 +26,8 @@ CLAIMS = {
          "trusts rustc's MIR/callee resolution and const evaluation of the token strings"),
  "C14": ("structural necessary conditions decided on the current tree: no non-validating skipper reachable from checked get/get_many/get_by_schema (flag-specialised call-graph reachability) and the non-validating primitives confined to the non-validating family (who-may-call); every Ok return on the byte-carrier edge passes from_utf8 over the whole traversed prefix input[..index] (must-pass-through + provenance of the validated slice); need_utf8_valid() true exactly for byte-typed carriers; \\u digits decoded by the validating skipper; raw spans from the reader indices around the skip; one-fraction discipline of the number skipper. That the validating skipper accepts only the grammar is NOT decided",
          "trusts rustc's MIR/callee resolution; class-hierarchy edges for the sealed Reader/JsonInput/Index traits"),
+ "C15": ("the aliasing clause and three panic shapes decided on the current tree: mutable access to the shared owned containers only through Arc::make_mut (who-may-call by pointee type, with positive control), arena pointers never feed a mutable view (forward derivation of pointer locals), mutable facades only after to_mut(); as_str().unwrap() only on keys by construction (provenance through field projections), a caller's path element never unwrapped, no representation class split between a normal and a panicking arm (variant-to-arm map of every switch on the value representation). Operation histories against the model are NOT decided",
+         "trusts rustc's MIR/callee resolution; keys are strings by construction"),
  "C16": ("pairing and confinement rules decided on the current tree: arena count taken only in pack_shared and returned only on the ROOT_NODE arm of Drop for Value with one pointee type (who-may-call + switch-arm dominance); bitwise materialisation only in the hand-over functions; ManuallyDrop wrap dominates visit_bytes with no exit in between and the wrapped local is what is handed over; *self assigned only after a successful parse; no re-entry into the thread-local node buffer nor serde callbacks while parsing; bump allocator only behind &mut; borrowing visitor methods unreachable from the copying parser. Drop orders and thread interleavings are NOT decided",
          "trusts rustc's MIR/callee resolution and drop elaboration"),
  "C18": ("static protocol obligations of the publish-once caches decided on the MIR of the current tree (weak-CAS discipline, hand-over type agreement, loser cleanup and returned pointer, owner clone/drop pairing, memory orderings); each is a necessary condition of C18; behaviour under interleavings is NOT decided",
